@@ -1573,7 +1573,8 @@ pub fn check_text(text: &str, tok_offs: &[usize], label: &str, detectors: &[Dete
         // location (C02 b), exact case: when the reference knows no gray construct in this program and
         // exactly as many lines are reported as there are canonical constructs, the reported lines must
         // be anchor lines; a different line set of the same size is a construct reported at a wrong line
-        if mode == Mode::LocationOnly && must_n > 0 && verdicts.len() == must_n && got.len() == must_n && got.iter().any(|l| !anchor_lines.contains(l)) {
+        let containers = verdicts.iter().any(|x| matches!(x.kind, "ContractDefinition" | "StructDefinition"));
+        if mode == Mode::LocationOnly && !containers && must_n > 0 && verdicts.len() == must_n && got.len() == must_n && got.iter().any(|l| !anchor_lines.contains(l)) {
             let must_lines: BTreeSet<i32> = verdicts.iter().map(|x| crate::layout::line_of(text, x.anchors[0])).collect();
             if must_lines.len() == must_n {
                 res.violations.push(Violation {
@@ -1598,7 +1599,25 @@ pub fn check_text(text: &str, tok_offs: &[usize], label: &str, detectors: &[Dete
             let inside = verdicts.iter().find(|x| toks.iter().any(|&o| o > x.span.0 && o < x.span.1));
             // what starts on that line?
             let starts: Vec<&'static str> = tree.nodes.iter().filter(|n| n.class != Class::Aux && toks.contains(&n.start)).map(|n| n.kind).collect();
+            // a detector that judges a container (contract, struct) may point at the container or at one of its
+            // members: both are "the construct that was flagged"; the line must then be the first line of a member
+            let member_of_container = |x: &Verdict| {
+                matches!(x.kind, "ContractDefinition" | "StructDefinition")
+                    && tree.nodes.iter().any(|n| n.class != Class::Aux && toks.contains(&n.start) && {
+                        let mut q = n.parent;
+                        let mut direct = false;
+                        while let Some(a) = q {
+                            if tree.nodes[a].class != Class::Aux {
+                                direct = a == x.node;
+                                break;
+                            }
+                            q = tree.nodes[a].parent;
+                        }
+                        direct
+                    })
+            };
             match (mode, inside) {
+                (Mode::LocationOnly, Some(x)) if member_of_container(x) => {}
                 (Mode::LocationOnly, Some(x)) => res.violations.push(Violation {
                     site: format!("{}:location:{}", d.name, x.kind),
                     input: text.to_string(),
